@@ -242,7 +242,7 @@ def fetch_slice_two_segments_q(split: int, pad0: int, pad1: int, vr1: bool, i: i
     pre: 1 <= split <= 2
     pre: 0 <= pad0 <= 1 and 0 <= pad1 <= 1
     pre: 0 <= i <= 1 and i < (1 if split == 2 else 2)
-    pre: 0 <= off <= 11 and ln in (-1, 0, 1, 2, 3, 11, 12, 13)
+    pre: 0 <= off <= 13 and -1 <= ln <= 13
     pre: PART < 0 or (split - 1) * 8 + (4 if vr1 else 0) + pad0 * 2 + pad1 == PART
     post: _
     """
@@ -269,6 +269,11 @@ class _Pos:
 def _fetch_slice(split, pad0, pad1, vr1, i, off, ln):
     split, pad0, pad1, vr1, i = mark.pick(split, 1, 2), mark.pick(pad0, 0, 1), mark.pick(pad1, 0, 1), mark.pickb(vr1), mark.pick(i, 0, 1)
     off, ln = mark.pick(off, 0, 24), mark.pick(ln, -1, 24)
+    with mark.untraced():
+        return _fetch_slice_c(split, pad0, pad1, vr1, i, off, ln)
+
+
+def _fetch_slice_c(split, pad0, pad1, vr1, i, off, ln):
     recs = build(2, split, [(pad0, False, False, False, True), (pad1, True, False, False, vr1)], [7, 9])
     import os
     if 'get_file_logical_data_range_spans_segments' in os.environ.get('VERIF_EXCLUDE', '') and _crosses_segment_boundary(recs, i, off, ln):
